@@ -1797,6 +1797,11 @@ NO_MATCH:
 
       P->e->p.meta_entry = (gd_entry_t **)ptr;
       P->e->p.meta_entry[P->e->n_meta++] = E;
+
+      /* the parent's cached lists are out of date (gd_add_spec with a
+       * "parent/name" field name does not know the parent) */
+      P->e->fl.entry_list_validity = 0;
+      P->e->fl.value_list_validity = 0;
     }
 
     /* the Format file fragment index */
